@@ -24,6 +24,6 @@ m={"version":1,
    "engines":[{"name":"sa","path":"sa/","serves_properties":sorted(claimed['claimed']),"kind_free_text":"repository-specific static analysis: clang-14 JSON AST -> typed IR + statement CFG for C; Python ast for the facade; rule modules under rules/"}],
    "checks":checks,
    "not_applicable":na,
-   "notes":"Static analysis family only. Each check decides named structural clauses of its property (listed in DESIGN.md section 5) and states what it declines. Exit 0 = all obligations discharged, exit 1 + VIOLATION line = a construct violates a rule, exit 2 + ANALYSIS-ERROR = the analysis could not run (anchor missing)."}
+   "notes":"Static analysis family only. Each check decides named structural clauses of its property (listed in DESIGN.md section 5) and states what it declines. Exit 0 = all obligations discharged, exit 1 + VIOLATION line = a construct violates a rule, exit 2 + ANALYSIS-ERROR = the analysis could not run (anchor missing). Known findings (genuine defects recorded rather than repaired) and the list of fixed defects are in known_findings.json, matched by rule and construct; a listed finding prints a KNOWN-FINDING line and does not fail the check."}
 json.dump(m,open('/verif/MANIFEST.json','w'),indent=1)
 print(len(checks),'checks',len(na),'n/a')
